@@ -243,4 +243,16 @@ example : (planTop true [] cat2 [] joinQuery).map (·.flatMap Step.idents) =
     some [([n!"s"], false, none), ([n!"t"], false, none), ([n!"t", n!"id"], false, none),
       ([n!"s", n!"id"], false, none), ([n!"t", n!"x"], false, none)] := by decide
 
+-- [review] non-vacuity of `C11_partial_decision` THROUGH the theorem: every hypothesis is met by `joinQuery`
+example : planTop true [] cat2 [] joinQuery = some [.fetch n!"int1" (strip n!"int1" [] .noFrom .arg joinQuery)] := by
+  have hv : visit .arg joinQuery = [.table [n!"INT1", n!"s"], .table [n!"int1", n!"t"]] := by decide
+  refine C11_partial_decision [] cat2 [] joinQuery n!"int1" (by decide) ?_ (by decide) (by decide) (by decide)
+    (by decide) (by decide)
+  intro it hit
+  rw [hv] at hit
+  simp only [List.mem_cons, List.not_mem_nil, or_false] at hit
+  rcases hit with rfl | rfl
+  · exact ⟨_, rfl, Or.inr ⟨[n!"s"], by decide⟩⟩
+  · exact ⟨_, rfl, Or.inr ⟨[n!"t"], by decide⟩⟩
+
 end MindsVerif.Props.C11
